@@ -949,9 +949,14 @@ func (e *evidence) write() {
 		"goroutine scheduling":                   "1 P, no async preemption; driver releases one event per quiescent point",
 		"disk":                                   "none exists in olric",
 	}
-	os.MkdirAll(filepath.Join(verifDir, "evidence"), 0o755)
+	evDir := filepath.Join(verifDir, "evidence")
+	if repoDir != "/repo" {
+		// a run against a scratch tree (sensitivity experiments) is not evidence about /repo
+		evDir = filepath.Join(verifDir, "out", "evidence-scratch")
+	}
+	os.MkdirAll(evDir, 0o755)
 	bs, _ := json.MarshalIndent(e, "", " ")
-	if err := os.WriteFile(filepath.Join(verifDir, "evidence", e.PropertyID+".json"), bs, 0o644); err != nil {
+	if err := os.WriteFile(filepath.Join(evDir, e.PropertyID+".json"), bs, 0o644); err != nil {
 		infra("write evidence: %v", err)
 	}
 }
